@@ -7,7 +7,9 @@ NAME_ATOMS = [b"a", b"b", b"ab", b"a-b", b"a.b", b"a b", b"a!", b"a0", b"A", b"z
               # names made of pattern metacharacters (legal file names; a pattern naming them has to escape them)
               b"a[1]", b"[z]", b"x*", b"q?",
               # names shaped like the disk writer's own staging files (ordinary entries when they come from the source)
-              b".tmp.1", b".tmp.abc"]
+              b".tmp.1", b".tmp.abc",
+              # the name of the metadata-only listing: an ordinary entry in an ordinary transfer
+              b".fsutil-metadata"]
 
 
 def name(rng, long_ok=True):
